@@ -164,6 +164,8 @@ pub struct ClientNode {
     pub panicked: bool,
     /// Frame counter when the client end was closed (a reconnect needs at least one frame after it).
     pub closed_at: Option<u64>,
+    /// Most recent real message per uplink channel (raw material for structure-aware mutation).
+    pub last_c2s: Vec<Option<Bytes>>,
 }
 
 #[derive(Clone, Debug)]
@@ -345,6 +347,7 @@ impl Sim {
                 frames: 0,
                 panicked: false,
                 closed_at: None,
+                last_c2s: vec![None; chans.n_client()],
             });
         }
         Sim {
@@ -612,6 +615,31 @@ impl Sim {
                 }
             }
             Step::Inject { client, channel, bytes } => self.op_inject(*client as usize, *channel as usize, bytes),
+            Step::InjectMut { client, chan, kind, a, b } => {
+                let c = *client as usize;
+                if c < self.clients.len() {
+                    if let Some(ch) = self.chan_id(Dir::C2S, *chan) {
+                        let raw = self.clients[c].c2s[ch].front().map(|m| m.bytes.clone()).or_else(|| self.clients[c].last_c2s[ch].clone());
+                        if let Some(m) = raw {
+                            let mut bytes = m.to_vec();
+                            let pos = if bytes.is_empty() { 0 } else { *a as usize % bytes.len() };
+                            match kind % 5 {
+                                0 if !bytes.is_empty() => bytes[pos] ^= 1 << (b % 8),
+                                1 => bytes.truncate(pos),
+                                2 => bytes.extend(std::iter::repeat(*b).take(*a as usize % 16)),
+                                3 if !bytes.is_empty() => bytes[pos] = *b,
+                                _ => {
+                                    let tail = bytes.split_off(pos);
+                                    bytes.extend([0xff, 0xff, 0xff, 0xff, 0xff, 0xff, 0xff, 0xff, 0xff, 0x01]);
+                                    bytes.extend(tail);
+                                }
+                            }
+                            self.stats.fault("mutated_real_message");
+                            self.op_inject(c, ch, &bytes);
+                        }
+                    }
+                }
+            }
             Step::Heal => self.heal(),
         }
     }
@@ -1383,6 +1411,9 @@ impl Sim {
             let id = self.msg_id;
             self.stats.messages += 1;
             self.stats.bytes += bytes.len() as u64;
+            if ch < self.clients[c].last_c2s.len() {
+                self.clients[c].last_c2s[ch] = Some(bytes.clone());
+            }
             crate::oracles::on_client_message(self, c, ch, &bytes);
             let server_open = self.clients[c].sess.as_ref().map(|s| s.ce.is_some()).unwrap_or(false);
             if server_open && ch < self.clients[c].c2s.len() {
